@@ -19,6 +19,13 @@
 (*             actions shows the rejections are reachable);                 *)
 (*   GRAMMAR   the model only produces events the protocol admits.          *)
 (*                                                                          *)
+(* State-space hygiene: one history per behaviour; formats are tried in the *)
+(* harness' order; the restored / alternative object is forgotten once its  *)
+(* Eq step is over; a history stops after MaxViol clauses have fired.        *)
+(* Measured: quick (MaxC = 4, d = h = 0 starts, 2 formats, MaxViol = 1)      *)
+(* 104 220 distinct states; thorough (every start, 3 formats, MaxViol = 2)   *)
+(* 1 607 944 distinct states (MaxC = 4), 2 276 800 (MaxC = 5).               *)
+(*                                                                          *)
 (* Abstract object state  s = [d, c, h]:                                    *)
 (*   d  a discrete parameter  (what class labels / cluster ids depend on)   *)
 (*   c  a continuous parameter, counted in "last-place units": two          *)
@@ -32,7 +39,11 @@
 EXTENDS RoundTrip, TLC
 
 CONSTANTS MaxC,      \* continuous parameter ranges over 0..MaxC
-          Faults     \* the fault classes to inject (subset of AllFaults)
+          Faults,    \* the fault classes to inject (subset of AllFaults)
+          WithPermuted, \* also model the third format (JSON with permuted keys)
+          FullStart,    \* TRUE: every initial object state; FALSE: d = 0, h = 0 (the model is
+                        \* symmetric under flipping d and h)
+          MaxViol       \* a history is not continued after this many clauses have fired
 
 AllFaults == {"serFail", "deFail", "deCorrupt", "deDropsHidden", "jsonSloppy", "jsonDiscrete",
               "eqSubset", "eqNotReflexive", "eqPanics", "nondetFit"}
@@ -51,9 +62,8 @@ VARIABLES st,        \* the history state of RoundTrip (spec side)
           fault,     \* "none" or the injected fault
           viol,      \* clauses that have fired so far
           protoOK,   \* every event so far was admitted by the protocol
-          detected,  \* bookkeeping for the Detect_* actions
           over       \* the (single) history of this behaviour has ended
-vars == <<st, s0, r, t, cfgI, fault, viol, protoOK, detected, over>>
+vars == <<st, s0, r, t, cfgI, fault, viol, protoOK, over>>
 
 (* ---- the implementation's `==` ----------------------------------------- *)
 (* correct: compares the discrete parameter, the continuous one exactly or
@@ -94,33 +104,37 @@ Statuses(f) == IF fault = f THEN {"ok", "err"} ELSE {"ok"}
 
 (* ---- steps: each builds the event the harness would record, asks the
         specification, and moves both sides ---------------------------------- *)
-Judge(e) == /\ protoOK' = (protoOK /\ P(st, e))
-            /\ viol' = (IF V(st, e) = "" THEN viol ELSE viol \cup {V(st, e)})
-            /\ st' = E(st, e)
+Judge1(e, v) == /\ Cardinality(viol) < MaxViol
+                /\ protoOK' = (protoOK /\ P(st, e))
+                /\ viol' = (IF v = "" THEN viol ELSE viol \cup {v})
+                /\ st' = E(st, e)
+Judge(e) == Judge1(e, V(st, e))   \* (operator arguments are evaluated once)
 
 Init == /\ st = Idle
-        /\ s0 \in States /\ r = s0 /\ t = s0
+        /\ s0 \in (IF FullStart THEN States ELSE {x \in States : x.d = 0 /\ x.h = 0})
+        /\ r = s0 /\ t = s0
         /\ cfgI \in [tol : {0, 1}, cmpH : BOOLEAN]
         /\ fault \in Faults \cup {"none"}
-        /\ viol = {} /\ protoOK = TRUE /\ detected = FALSE /\ over = FALSE
+        /\ viol = {} /\ protoOK = TRUE /\ over = FALSE
 
 Build == /\ st.phase = "idle" /\ ~over
          /\ \E det \in BOOLEAN, sup \in BOOLEAN, prec \in {32, 64}, hasEq \in BOOLEAN :
               /\ (fault = "deDropsHidden" => cfgI.cmpH)   \* premise of that fault class
+              /\ (~hasEq => ~det /\ ~sup)                \* irrelevant without PartialEq
               /\ Judge([ev |-> "Built", det |-> det, sup |-> sup, prec |-> prec, hasEq |-> hasEq,
                         obs |-> ObsOf(s0), dig |-> DigOf(s0), digok |-> TRUE,
                         xd |-> <<1, 1>>, yd |-> IF sup THEN <<1, 1>> ELSE <<0, 0>>])
-         /\ UNCHANGED <<s0, r, t, cfgI, fault, detected, over>>
+         /\ UNCHANGED <<s0, r, t, cfgI, fault, over>>
 
 (* formats are tried in the order of the harness (the protocol admits any order) *)
 NextFmts(done) == IF "bincode" \notin done THEN {"bincode"}
                   ELSE IF "json" \notin done THEN {"json"}
-                  ELSE {"jsonperm"} \ done
+                  ELSE IF WithPermuted THEN {"jsonperm"} \ done ELSE {}
 Ser == /\ Ready(st)
        /\ \E fmt \in NextFmts(st.fmts), status \in Statuses("serFail") :
             Judge([ev |-> "Ser", fmt |-> fmt, status |-> status])
        /\ r' = s0 /\ t' = s0
-       /\ UNCHANGED <<s0, cfgI, fault, detected, over>>
+       /\ UNCHANGED <<s0, cfgI, fault, over>>
 
 De == /\ st.phase = "ser"
       /\ \E status \in Statuses("deFail") :
@@ -132,26 +146,29 @@ De == /\ st.phase = "ser"
            ELSE /\ r' = r
                 /\ Judge([ev |-> "De", fmt |-> st.fmt, status |-> status, obs |-> NoObs,
                           dig |-> <<0, 0>>, digok |-> FALSE])
-      /\ UNCHANGED <<s0, t, cfgI, fault, detected, over>>
+      /\ UNCHANGED <<s0, t, cfgI, fault, over>>
 
 EqRestored == /\ st.phase = "de" /\ st.hasEq
               /\ Judge([ev |-> "Eq", kind |-> "restored", fmt |-> st.fmt, status |-> "ok",
                         result |-> EqImpl(s0, r)])
               /\ r' = s0
-              /\ UNCHANGED <<s0, t, cfgI, fault, detected, over>>
+              /\ UNCHANGED <<s0, t, cfgI, fault, over>>
 
 EqSelf == /\ Ready(st) /\ st.hasEq /\ ~st.selfDone
           /\ Judge([ev |-> "Eq", kind |-> "self", fmt |-> "-", status |-> "ok", result |-> EqImpl(s0, s0)])
-          /\ UNCHANGED <<s0, r, t, cfgI, fault, detected, over>>
+          /\ UNCHANGED <<s0, r, t, cfgI, fault, over>>
 
 (* the alternative object: a second fit on the same data gives the same state
    when fitting is deterministic and ANY state otherwise; a fit on other data
    may give any state at all -- also the same one *)
-Hows == {"same", "indep", "shift", "rowsonly"}
+(* "indep" and "shift" (independent / translated other data) are the same thing at this
+   level of abstraction: other rows and, for a supervised estimator, other targets *)
+Hows == IF WithPermuted THEN {"same", "indep", "shift", "rowsonly"} ELSE {"same", "indep", "rowsonly"}
 Alt == /\ Ready(st) /\ {"bincode", "json"} \subseteq st.fmts
        /\ \E how \in Hows, status \in {"ok", "err"} :
             LET role == IF how = "same" THEN "refit" ELSE "other"
-                cands == IF how = "same" /\ st.det /\ fault # "nondetFit" THEN {s0} ELSE States
+                cands == IF status # "ok" \/ (how = "same" /\ st.det /\ fault # "nondetFit") THEN {s0}
+                         ELSE {x \in States : x.h = s0.h}
             IN \E x \in cands :
                  /\ t' = (IF status = "ok" /\ st.hasEq THEN x ELSE s0)
                  /\ r' = s0
@@ -160,7 +177,7 @@ Alt == /\ Ready(st) /\ {"bincode", "json"} \subseteq st.fmts
                            xd |-> IF how = "same" THEN <<1, 1>> ELSE <<2, 2>>,
                            yd |-> IF ~st.sup THEN <<0, 0>>
                                   ELSE IF how \in {"same", "rowsonly"} THEN <<1, 1>> ELSE <<2, 2>>])
-       /\ UNCHANGED <<s0, cfgI, fault, detected, over>>
+       /\ UNCHANGED <<s0, cfgI, fault, over>>
 
 EqAlt == /\ st.phase = "alt" /\ st.hasEq
          /\ LET panics == fault = "eqPanics" /\ st.arole = "other" /\ t.d # s0.d
@@ -168,12 +185,12 @@ EqAlt == /\ st.phase = "alt" /\ st.hasEq
                       status |-> IF panics THEN "panic" ELSE "ok",
                       result |-> IF panics THEN FALSE ELSE EqImpl(s0, t)])
          /\ t' = s0
-         /\ UNCHANGED <<s0, r, cfgI, fault, detected, over>>
+         /\ UNCHANGED <<s0, r, cfgI, fault, over>>
 
 Finish == /\ Ready(st) /\ {"bincode", "json"} \subseteq st.fmts
           /\ Judge([ev |-> "End"])
           /\ over' = TRUE
-          /\ UNCHANGED <<s0, r, t, cfgI, fault, detected>>
+          /\ UNCHANGED <<s0, r, t, cfgI, fault>>
 
 (* ---- reachability witnesses: one action per fault class, enabled exactly
         when the specification has rejected a history of that class --------- *)
@@ -190,20 +207,19 @@ Expected == [f \in AllFaults \cup {"none"} |->
       [] f = "nondetFit" -> {"EqRefit"}
       [] OTHER -> {}]
 
-Detect(f, clause) == /\ fault = f /\ clause \in viol /\ ~detected
-                     /\ detected' = TRUE
-                     /\ UNCHANGED <<st, s0, r, t, cfgI, fault, viol, protoOK, over>>
-Detect_serFail        == Detect("serFail", "SerFails")
-Detect_deFail         == Detect("deFail", "DeFails")
-Detect_deCorruptBits  == Detect("deCorrupt", "BincodeBits")
-Detect_deCorruptJson  == Detect("deCorrupt", "JsonValues")
-Detect_deDropsHidden  == Detect("deDropsHidden", "EqRestored")
-Detect_jsonSloppy     == Detect("jsonSloppy", "JsonValues")
-Detect_jsonDiscrete   == Detect("jsonDiscrete", "JsonDiscrete")
-Detect_eqSubset       == Detect("eqSubset", "EqOther")
-Detect_eqNotReflexive == Detect("eqNotReflexive", "EqSelf")
-Detect_eqPanics       == Detect("eqPanics", "EqPanics")
-Detect_nondetFit      == Detect("nondetFit", "EqRefit")
+(* (stuttering steps: they exist only so that TLC's action coverage reports, per
+   fault class, that a rejecting history is reachable) *)
+Detect_serFail == fault = "serFail" /\ "SerFails" \in viol /\ UNCHANGED vars
+Detect_deFail == fault = "deFail" /\ "DeFails" \in viol /\ UNCHANGED vars
+Detect_deCorruptBits == fault = "deCorrupt" /\ "BincodeBits" \in viol /\ UNCHANGED vars
+Detect_deCorruptJson == fault = "deCorrupt" /\ "JsonValues" \in viol /\ UNCHANGED vars
+Detect_deDropsHidden == fault = "deDropsHidden" /\ "EqRestored" \in viol /\ UNCHANGED vars
+Detect_jsonSloppy == fault = "jsonSloppy" /\ "JsonValues" \in viol /\ UNCHANGED vars
+Detect_jsonDiscrete == fault = "jsonDiscrete" /\ "JsonDiscrete" \in viol /\ UNCHANGED vars
+Detect_eqSubset == fault = "eqSubset" /\ "EqOther" \in viol /\ UNCHANGED vars
+Detect_eqNotReflexive == fault = "eqNotReflexive" /\ "EqSelf" \in viol /\ UNCHANGED vars
+Detect_eqPanics == fault = "eqPanics" /\ "EqPanics" \in viol /\ UNCHANGED vars
+Detect_nondetFit == fault = "nondetFit" /\ "EqRefit" \in viol /\ UNCHANGED vars
 
 Next == \/ Build \/ Ser \/ De \/ EqRestored \/ EqSelf \/ Alt \/ EqAlt \/ Finish
         \/ Detect_serFail \/ Detect_deFail \/ Detect_deCorruptBits \/ Detect_deCorruptJson
